@@ -130,9 +130,9 @@ pub fn emit(e: &mut Emitter, seed: u64, thorough: bool) {
         });
     }
     for ex in (0..80u64).chain([95, 96, 97, 127, 128, 129, 200]) {
-        e.case("ext-inv2exp", format!("c14 extinv2exp 2 {ex}"), || join(QuadraticExtension::<F>::inverse_2exp(ex as usize).to_basefield_array().iter().map(|y| y.to_canonical_u64())));
-        e.case("ext-inv2exp", format!("c14 extinv2exp 4 {ex}"), || join(QuarticExtension::<F>::inverse_2exp(ex as usize).to_basefield_array().iter().map(|y| y.to_canonical_u64())));
-        e.case("ext-inv2exp", format!("c14 extinv2exp 5 {ex}"), || join(QuinticExtension::<F>::inverse_2exp(ex as usize).to_basefield_array().iter().map(|y| y.to_canonical_u64())));
+        e.case("ext-inv2exp", format!("c14 extinv2exp 2 {ex}"), || join(FieldExtension::<2>::to_basefield_array(&QuadraticExtension::<F>::inverse_2exp(ex as usize)).iter().map(|y| y.to_canonical_u64())));
+        e.case("ext-inv2exp", format!("c14 extinv2exp 4 {ex}"), || join(FieldExtension::<4>::to_basefield_array(&QuarticExtension::<F>::inverse_2exp(ex as usize)).iter().map(|y| y.to_canonical_u64())));
+        e.case("ext-inv2exp", format!("c14 extinv2exp 5 {ex}"), || join(FieldExtension::<5>::to_basefield_array(&QuinticExtension::<F>::inverse_2exp(ex as usize)).iter().map(|y| y.to_canonical_u64())));
     }
     // 6. batch inversion, every length 0..67 and longer
     for len in (0..68).chain([100, 255, 256, 1000]) {
